@@ -426,7 +426,7 @@ async fn run_case(addr: SocketAddr, certs: &Certs, t: &[&str]) -> anyhow::Result
             let probe = if t[2] == "RP" || t[2] == "RS" { probe_pubsub(addr, certs, &ns, &tp).await } else { probe_reqrep(addr, certs, &ns, &tp).await };
             Ok(format!("probe={probe}"))
         }
-        "stall" => {
+        "stall" | "stall1" => {
             let n: usize = t[2].parse()?;
             let (ns, tp) = fresh();
             let conn = raw(addr, certs).await?;
@@ -539,6 +539,8 @@ pub fn run(cfg: &Cfg) {
         cases.push("reg pipeline RP".into());
         cases.push("reg pipeline RQ".into());
         cases.push("reg stall 130".into());
+        // the same against a server that has a single worker thread
+        cases.push("reg stall1 130".into());
         cases.push("reg stall 420".into());
         // isolation between names that are close to each other: the same text with the separator elsewhere, swapped
         // parts, case, '-' / '_', one extra character, and the same name twice (control: shared)
@@ -568,7 +570,9 @@ pub fn run(cfg: &Cfg) {
             addr = rt.block_on(async { start_server(&certs) }).expect("server");
             dead = false;
         }
-        let res = rt.block_on(async { tokio::time::timeout(Duration::from_secs(60), run_case(addr, &certs, &t)).await });
+        // `stall1`: the scenario runs against a server of its own that has one worker thread
+        let case_addr = if t[1] == "stall1" { match start_server_single_worker(&certs) { Ok(a) => a, Err(_) => addr } } else { addr };
+        let res = rt.block_on(async { tokio::time::timeout(Duration::from_secs(60), run_case(case_addr, &certs, &t)).await });
         let (imp, mon) = match res {
             Err(_) => { dead = true; ("TIMEOUT".to_string(), Err("C11/C17: the exchange did not complete within 60 s".to_string())) }
             Ok(Err(e)) => (format!("ERROR {}", format!("{e:?}").replace('\n', " ").chars().take(160).collect::<String>()), Err(format!("{e}"))),
@@ -577,7 +581,7 @@ pub fn run(cfg: &Cfg) {
                 let probe_ok = line.split(' ').filter(|x| x.contains('=') && ["probe", "queued-peer", "blocked-publisher", "other-names", "queued-peer-later"].contains(&x.split('=').next().unwrap())).all(|x| x.ends_with("=ok"));
                 // whom a dead probe speaks for: a topic left unusable (C11); for the stall scenario other topics (C17); a replier
                 // slot that a dead registration keeps occupied (C10)
-                let tag = if t[1] == "stall" || t[1] == "mute" { "C11/C17" } else if t[1] == "abandon" && t[2] == "RR" { "C10/C11" } else { "C11" };
+                let tag = if t[1] == "stall" || t[1] == "stall1" || t[1] == "mute" { "C11/C17" } else if t[1] == "abandon" && t[2] == "RR" { "C10/C11" } else { "C11" };
                 if !probe_ok { dead = line.contains("hang"); m = Err(format!("{tag}: after `{}` well-behaved clients are no longer served: {line}", t[1..].join(" ").chars().take(80).collect::<String>())); }
                 if m.is_ok() {
                     let answers: Vec<&str> = line.split(' ').filter(|x| !x.starts_with("probe=") && !x.starts_with("queued-peer=") && !x.starts_with("blocked-publisher=") && !x.starts_with("other-names=") && !x.starts_with("queued-peer-later=") && !x.starts_with("a=") && !x.starts_with("b=") && !x.starts_with("got=") && !x.starts_with("lib=")).collect();
